@@ -401,7 +401,7 @@ def layout_stage(run, hook, prims):
     quick = run.tier == "quick"
     ts = systematic_types()
     nsys = len(ts)
-    nrand = 1500 if quick else 30000
+    nrand = 700 if quick else 30000
     maxd = 4 if quick else 5
     for i in range(nrand):
         d = rng.choice([1, 2, 2, 3, 3, maxd, maxd])
@@ -422,6 +422,306 @@ def layout_stage(run, hook, prims):
     # the open finding about the union size model is reproduced by a dedicated probe (generator gate: no unions above)
     return fails
 
+
+# ------------------------------------------------------------------ tie 2: programs
+
+RANGES = {"i8": (-2**7, 2**7 - 1), "i16": (-2**15, 2**15 - 1), "i32": (-2**31, 2**31 - 1), "i64": (-2**63 + 1, 2**63 - 1),
+          "u8": (0, 2**8 - 1), "u16": (0, 2**16 - 1), "u32": (0, 2**32 - 1), "u64": (0, 2**64 - 1),
+          "i128": (-2**127 + 1, 2**127 - 1), "u128": (0, 2**128 - 1), "i256": (-2**255 + 1, 2**255 - 1), "u256": (0, 2**256 - 1)}
+PROG_PRIMS = ["i8", "i16", "i32", "i64", "u8", "u16", "u32", "u64", "i128", "u128", "i256", "u256", "bool", "str"]
+NONE_MARK = 101          # printed for an optional that is none (never generated as a value)
+
+def gen_ptype(rng, d, wasm_ok):
+    """type of a program scenario: struct of prims / nested structs / fixed arrays / optionals of integers"""
+    small = [x for x in PROG_PRIMS if not x.endswith("128") and not x.endswith("256")]
+    ints = [x for x in RANGES if not wasm_ok or (not x.endswith("128") and not x.endswith("256"))]   # the JS runtime has no 128/256-bit support
+    def prim():
+        return ("p", rng.choice((small if wasm_ok else PROG_PRIMS) if rng.random() < 0.9 else ["i8", "i64", "i16"]))
+    def field(dd):
+        r = rng.random()
+        if dd > 0 and r < 0.25: return struct(dd - 1)
+        if dd > 0 and r < 0.40: return ("a", rng.choice([1, 2, 3]), struct(dd - 1))
+        if r < 0.50: return ("a", rng.choice([1, 2, 3]), ("p", rng.choice(ints)))
+        if r < 0.70 and not wasm_ok: return ("o", ("p", rng.choice(ints)))
+        return prim()
+    def struct(dd):
+        return ("s", [field(dd) for _ in range(rng.choice([1, 2, 3, 3, 4, 5]))])
+    return struct(d)
+
+def fresh_value(rng, name, used):
+    if name == "bool": return rng.choice(["true", "false"])
+    if name == "str":
+        used[0] += 1
+        return '"s%d"' % used[0]
+    lo, hi = RANGES[name]
+    while True:
+        r = rng.random()
+        if r < 0.25: v = rng.choice([lo, hi, -1 if lo < 0 else hi, hi - 1, lo + 1])
+        elif r < 0.5: v = rng.randrange(lo, hi + 1)
+        else:
+            used[0] += 1
+            v = (used[0] * 37 + 3) % (hi + 1)
+        if v != NONE_MARK: return str(v)
+
+def shown(name, lit):
+    return lit[1:-1] if name == "str" else lit
+
+class Scenario:
+    """one composite variable: initial literal, a random sequence of single-component writes, a copy"""
+    def __init__(self, rng, k, t, nwrites):
+        self.k = k; self.t = t; self.names = {}; self.decls = []
+        self.used = [0]
+        self.tname = self.declare(t)
+        self.leaves = []             # (path, kind, primname)
+        self.collect("v", t)
+        self.init = {}
+        lit = self.literal(rng, t, "v", top=True)
+        self.lit = lit
+        self.writes = []
+        # gate (finding F-ARRAYSET-NESTED): elements of a primitive array reached through a struct are never written
+        self.wleaves = [l for l in self.leaves if not l[0].endswith("]")] or self.leaves[:0]
+        for _ in range(nwrites if self.wleaves else 0):
+            path, kind, pn = rng.choice(self.wleaves)
+            if kind == "o" and rng.random() < 0.3: self.writes.append((path, kind, pn, "none"))
+            else: self.writes.append((path, kind, pn, fresh_value(rng, pn, self.used)))
+        self.copy_writes = [(path.replace("v", "c", 1), kind, pn, fresh_value(rng, pn, self.used)) for path, kind, pn in self.wleaves]
+        self.g1 = str(rng.randrange(10**6, 10**9)); self.g2 = str(-rng.randrange(10**6, 10**9))
+    def declare(self, t):
+        key = tstr(t)
+        if key in self.names: return self.names[key]
+        fields = []
+        for i, f in enumerate(t[1]):
+            fields.append("    .F%d: %s" % (i, self.tyname(f)))
+        name = "S%d_%d" % (self.k, len(self.names))
+        self.names[key] = name
+        self.decls.append("type %s struct {\n%s\n};" % (name, ",\n".join(fields)))
+        return name
+    def tyname(self, t):
+        if t[0] == "p": return t[1]
+        if t[0] == "s": return self.declare(t)
+        if t[0] == "a": return "[%d]%s" % (t[1], self.tyname(t[2]))
+        if t[0] == "o": return self.tyname(t[1]) + "?"
+        raise ValueError(t)
+    def collect(self, path, t):
+        if t[0] == "p": self.leaves.append((path, "p", t[1]))
+        elif t[0] == "o": self.leaves.append((path, "o", t[1][1]))
+        elif t[0] == "s":
+            for i, f in enumerate(t[1]): self.collect("%s.F%d" % (path, i), f)
+        elif t[0] == "a":
+            for i in range(t[1]): self.collect("%s[%d]" % (path, i), t[2])
+    def literal(self, rng, t, path, top=False):
+        if t[0] == "p":
+            v = fresh_value(rng, t[1], self.used); self.init[path] = shown(t[1], v); return v
+        if t[0] == "o":
+            if rng.random() < 0.5:
+                self.init[path] = str(NONE_MARK); return "none"
+            v = fresh_value(rng, t[1][1], self.used); self.init[path] = v; return v
+        if t[0] == "s":
+            body = "{ " + ", ".join(".F%d = %s" % (i, self.literal(rng, f, "%s.F%d" % (path, i))) for i, f in enumerate(t[1])) + " }"
+            return body if top else body + " as " + self.declare(t)
+        if t[0] == "a":
+            return "[" + ", ".join(self.literal(rng, t[2], "%s[%d]" % (path, i)) for i in range(t[1])) + "]"
+        raise ValueError(t)
+    def dump_code(self, var, ind="    "):
+        out = []
+        for n, (path, kind, pn) in enumerate(self.leaves):
+            pth = path.replace("v", var, 1)
+            if kind == "p": out.append("%sio::Println(%s);" % (ind, pth))
+            else:
+                out.append("%slet d%s%d: %s = %d;" % (ind, var, self.tick(), pn, NONE_MARK))
+                out.append("%slet t%s%d: %s = %s ?? d%s%d;" % (ind, var, self._tick, pn, pth, var, self._tick))
+                out.append("%sio::Println(t%s%d);" % (ind, var, self._tick))
+        out.append("%sio::Println(g1, g2);" % ind)
+        return out
+    _tick = 0
+    def tick(self):
+        self._tick += 1; return self._tick
+    def code(self, byval):
+        k = self.k
+        L = ["fn t%d() {" % k, "    let g1: i64 = %s;" % self.g1, "    let v: %s = %s;" % (self.tname, self.lit),
+             "    let g2: i64 = %s;" % self.g2, '    io::Println("#%d");' % k]
+        exp = ["#%d" % k]
+        state = dict(self.init)
+        def dump_exp(st):
+            return [st[p] for p, _, _ in self.leaves] + ["%s %s" % (self.g1, self.g2)]
+        L += self.dump_code("v"); exp += dump_exp(state)
+        for path, kind, pn, val in self.writes:
+            L.append("    %s = %s;" % (path, val))
+            state[path] = str(NONE_MARK) if val == "none" else shown(pn, val)
+            L += self.dump_code("v"); exp += dump_exp(state)
+        L.append("    let c := v;")
+        cstate = dict(state)
+        for path, kind, pn, val in self.copy_writes:
+            L.append("    %s = %s;" % (path, val))
+            cstate["v" + path[1:]] = shown(pn, val)
+        L += self.dump_code("v"); exp += dump_exp(state)
+        L += self.dump_code("c"); exp += dump_exp(cstate)
+        pre = []
+        if byval:
+            pre = ["fn d%d(v: %s, g1: i64, g2: i64) {" % (k, self.tname)] + self.dump_code("v") + ["}"]
+            L.append("    d%d(v, g1, g2);" % k); exp += dump_exp(state)
+            L.append("    d%d(c, g1, g2);" % k); exp += dump_exp(cstate)
+        L.append("}")
+        return self.decls, pre + L, exp
+    def describe(self):
+        return {"type": tstr(self.t), "writes": [(p, v) for p, _, _, v in self.writes]}
+
+class ResScenario:
+    """a function returning E ! T, called on both paths, with sentinels around the results"""
+    def __init__(self, rng, k):
+        self.k = k
+        self.e = rng.choice(list(RANGES) + ["str"]); self.t = rng.choice(list(RANGES) + ["bool"])
+        u = [0]
+        self.ev = fresh_value(rng, self.e, u); self.tv = fresh_value(rng, self.t, u)
+        self.dv = "true" if self.t == "bool" and self.tv == "false" else ("false" if self.t == "bool" else str(NONE_MARK))
+        self.g1 = str(rng.randrange(10**6, 10**9)); self.g2 = str(-rng.randrange(10**6, 10**9))
+        self.t0 = ("r", ("p", self.t), ("p", self.e))
+    def code(self, byval):
+        k = self.k
+        L = ["fn r%d(k: i32) -> %s ! %s {" % (k, self.e, self.t), "    if k == 0 {", "        let e: %s = %s;" % (self.e, self.ev),
+             "        return e!;", "    }", "    let x: %s = %s;" % (self.t, self.tv), "    return x;", "}",
+             "fn t%d() {" % k, '    io::Println("#%d");' % k, "    let g1: i64 = %s;" % self.g1,
+             "    let dv: %s = %s;" % (self.t, self.dv),
+             '    let a: %s = r%d(1) catch e { io::Println("E", e); } dv;' % (self.t, k),
+             "    let g2: i64 = %s;" % self.g2,
+             '    let b: %s = r%d(0) catch e { io::Println("E", e); } dv;' % (self.t, k),
+             "    io::Println(a);", "    io::Println(b);", "    io::Println(g1, g2);", "}"]
+        exp = ["#%d" % k, "E " + shown(self.e, self.ev), shown(self.t, self.tv), self.dv, "%s %s" % (self.g1, self.g2)]
+        return [], L, exp
+    def describe(self):
+        return {"type": tstr(self.t0), "ok": self.tv, "err": self.ev}
+
+def render(scens, byval):
+    decls, body, exps = [], [], []
+    for sc in scens:
+        d, l, e = sc.code(byval)
+        decls += d; body += l; exps.append(e)
+    main = ["fn main() {"] + ["    t%d();" % sc.k for sc in scens] + ["}"]
+    return 'import "std/io";\n\n' + "\n".join(decls) + "\n\n" + "\n".join(body) + "\n\n" + "\n".join(main) + "\n", exps
+
+def split_out(out):
+    """stdout -> {scenario id: [lines]}"""
+    cur = None; res = {}
+    for line in out.splitlines():
+        if line.startswith("#") and line[1:].isdigit():
+            cur = int(line[1:]); res[cur] = [line]
+        elif cur is not None:
+            res[cur].append(line)
+    return res
+
+BYVAL_PROBE = """import "std/io";
+type S struct {
+    .F0: i8,
+    .F1: i64,
+    .F2: i16
+};
+fn d(v: S) {
+    io::Println(v.F0, v.F1, v.F2);
+}
+fn main() {
+    let v: S = { .F0 = 2, .F1 = 3, .F2 = 4 };
+    d(v);
+}
+"""
+BYVAL_KEY = "byval-struct-param"
+ARRAYSET_PROBE = """import "std/io";
+type A struct {
+    .F0: i8,
+    .F1: [3]i16
+};
+fn main() {
+    let v: A = { .F0 = 1, .F1 = [10, 11, 12] };
+    v.F1[1] = 299;
+    io::Println(v.F1[0], v.F1[1], v.F1[2]);
+}
+"""
+ARRAYSET_KEY = "arrayset-nested-temp"
+
+def run_prog(work, name, src, target):
+    r = common.compile_and_run(src, work, name, target=target, timeout=60)
+    if not r["accepted"] or "out" not in r:
+        return None, (r.get("cout", "") + r.get("cerr", ""))[-1500:]
+    return r, None
+
+def first_diff(exp, got):
+    for i, e in enumerate(exp):
+        if i >= len(got) or got[i] != e:
+            return i, e, (got[i] if i < len(got) else "<missing>")
+    if len(got) > len(exp): return len(exp), "<end>", got[len(exp)]
+    return None
+
+def programs_stage(run, work):
+    rng = run.rng
+    quick = run.tier == "quick"
+    # ---- gate: by-value struct parameters (finding / fix C18-byval-param-copy)
+    r, err = run_prog(work, "byval", BYVAL_PROBE, "native")
+    byval = bool(r and r.get("rc") == 0 and r["out"].strip() == "2 3 4")
+    run.extra["byval_param_copy_ok"] = byval
+    if not byval:
+        run.violation(BYVAL_KEY, "a struct passed by value is not copied into the callee: expected `2 3 4`, got `%s`" %
+                      ((r["out"].strip() if r else err) or "")[:80],
+                      {"program": BYVAL_PROBE, "expected": "2 3 4", "observed": r["out"] if r else err, "target": "native"})
+        run.extra.setdefault("gates", []).append("by-value struct parameters are kept out of the generated programs while "
+                                                  "the by-value copy defect is open (probe BYVAL_PROBE)")
+    # ---- known finding: element store into a primitive array nested in a struct (probe)
+    r2, err2 = run_prog(work, "arrayset", ARRAYSET_PROBE, "native")
+    if not (r2 and r2.get("rc") == 0 and r2["out"].strip() == "10 299 12"):
+        run.violation(ARRAYSET_KEY, "storing into an element of a fixed array that is a struct field does not read back: "
+                      "expected `10 299 12`, got `%s`" % ((r2["out"].strip() if r2 else err2) or "")[:80],
+                      {"program": ARRAYSET_PROBE, "expected": "10 299 12", "observed": r2["out"] if r2 else err2, "target": "native"})
+        run.extra.setdefault("gates", []).append("elements of primitive arrays nested in structs are read but never written by the "
+                                                  "generated programs while F-ARRAYSET-NESTED is open (probe ARRAYSET_PROBE)")
+    nprog = 2 if quick else 40
+    per = 6 if quick else 10
+    fails = []
+    for pi in range(nprog):
+        wasm = (pi % 2 == 1)
+        scens = []
+        for k in range(per):
+            if not wasm and k % 4 == 3: scens.append(ResScenario(rng, k))
+            else: scens.append(Scenario(rng, k, gen_ptype(rng, rng.choice([0, 1, 1, 2]), wasm), rng.choice([3, 5, 8])))
+        fails += run_scenarios(run, work, "p%d" % pi, scens, "wasm" if wasm else "native", byval and not wasm, depth=0)
+    return fails
+
+def run_scenarios(run, work, name, scens, target, byval, depth):
+    """compile + run the scenarios in one program; on a compile failure or a crash bisect to single scenarios"""
+    src, exps = render(scens, byval)
+    r, err = run_prog(work, name, src, target)
+    fails = []
+    if r is None or r.get("rc") != 0:
+        if len(scens) > 1:
+            h = len(scens) // 2
+            return run_scenarios(run, work, name + "a", scens[:h], target, byval, depth + 1) + \
+                   run_scenarios(run, work, name + "b", scens[h:], target, byval, depth + 1)
+        sc = scens[0]
+        if r is None:
+            run.count("programs_rejected_" + target)
+            run.extra.setdefault("rejected_samples", [])
+            if len(run.extra["rejected_samples"]) < 3: run.extra["rejected_samples"].append({"type": tstr(sc.t if hasattr(sc, "t") and isinstance(sc.t, tuple) else sc.t0), "error": err[-300:]})
+            return []
+        return [dict(kind="crash", sc=sc, target=target, src=src, detail="exit status %s, stderr %s" % (r.get("rc"), r.get("err", "")[-300:]))]
+    got = split_out(r["out"])
+    for sc, exp in zip(scens, exps):
+        run.count("programs_run_" + target)
+        d = sc.describe()
+        run.case(("prog", target, json.dumps(d, sort_keys=True)), nontrivial=True,
+                 sample={"target": target, "scenario": d} if sc.k == 0 else None)
+        run.count("prog_components", len(getattr(sc, "leaves", [1, 2])))
+        df = first_diff(exp, got.get(sc.k, []))
+        if df is not None:
+            one_src, one_exp = render([sc], byval)
+            fails.append(dict(kind="output", sc=sc, target=target, src=one_src, detail="line %d: expected `%s`, got `%s`" % df,
+                              expected=one_exp[0]))
+    return fails
+
+def report_program_failure(run, f):
+    sc = f["sc"]
+    d = sc.describe()
+    key = "program:%s:%s" % (f["target"], hashlib.sha256(json.dumps(d, sort_keys=True).encode()).hexdigest()[:16])
+    run.violation(key, "generated program (%s) on %s: a component does not keep its value: %s" % (d["type"], f["target"], f["detail"]),
+                  {"program": f["src"], "target": f["target"], "scenario": d, "problem": f["detail"],
+                   "expected_stdout": f.get("expected"), "how": "ferret [-target wasm] -o prog main.fer; run; compare stdout"})
+
 UNION_PROBE = ("s", [("u", [("s", [("p", "i8"), ("p", "i64")]), ("p", "i8")]), ("p", "i64")])
 
 def main(run):
@@ -439,9 +739,18 @@ def main(run):
     fails = layout_stage(run, hook, prims)
     # ---- union size model (open finding F-UNION-SIZE): reproduced on every run by its own probe
     uf = [f for f in check_types(run, hook, [UNION_PROBE], prims, "union") if f["kind"] == "oracle"]
-    run.extra["gates"] = ["union types are kept out of the random type generator while F-UNION-SIZE is open (probe: %s)" % tstr(UNION_PROBE)]
+    run.extra.setdefault("gates", []).append("array elements of optional type and struct-payload results are not generated at program level (the compiler rejects them)")
+    run.extra["gates"] += ["union types are kept out of the random type generator while F-UNION-SIZE is open (probe: %s)" % tstr(UNION_PROBE)]
     for f in uf[:1]:
         report_layout_failure(run, f)
+    pf = programs_stage(run, work)
+    for f in pf[:3]:
+        report_program_failure(run, f)
+    tot = sum(v for k, v in run.dist.items() if k.startswith("programs_run_"))
+    rej = sum(v for k, v in run.dist.items() if k.startswith("programs_rejected_"))
+    if rej > tot:
+        run.violation("harness:programs-rejected", "most generated programs are rejected by the compiler (%d of %d): the program "
+                      "generator no longer matches the language" % (rej, rej + tot), {"samples": run.extra.get("rejected_samples")}, no_input=True)
     seen = set()
     for f in fails:
         if len(seen) >= 3: break
